@@ -199,15 +199,28 @@ def inference_traces(ctx, r):
       evs.append({'ev': 'preprocess', 'obs': intern(obs), 'stats': intern(stats), 'out': intern(out)})
       return out
 
-    nets = ppo_networks.make_ppo_networks(obs_size, act_size, preprocess_observations_fn=rec_pre,
-                                          policy_hidden_layer_sizes=(8,), value_hidden_layer_sizes=(8,))
+    # every other trace uses dictionary observations with DIFFERENT entries (and widths) for policy and critic
+    dict_obs = t % 2 == 1
+    priv = obs_size + 2
+    size_arg = {'state': obs_size, 'privileged_state': priv} if dict_obs else obs_size
+    keys_kw = dict(policy_obs_key='state', value_obs_key='privileged_state') if dict_obs else {}
+    nets = ppo_networks.make_ppo_networks(size_arg, act_size, preprocess_observations_fn=rec_pre,
+                                          policy_hidden_layer_sizes=(8,), value_hidden_layer_sizes=(8,), **keys_kw)
+    from flax import linen
+    ref_net = networks.make_policy_network(nets.parametric_action_distribution.param_size, size_arg,
+                                           preprocess_observations_fn=running_statistics.normalize,
+                                           hidden_layer_sizes=(8,), activation=linen.swish, obs_key='state')
     real_apply = nets.policy_network.apply
     real_dist = nets.parametric_action_distribution
 
     def rec_apply(stats, params, obs):
       evs.append({'ev': 'apply_call', 'stats': intern(stats), 'params': intern(params), 'obs': intern(obs)})
       out = real_apply(stats, params, obs)
-      evs.append({'ev': 'apply_ret', 'out': intern(out)})
+      try:     # the policy must be the MLP applied to the normalised POLICY entry of the observation
+        ref = intern(ref_net.apply(stats, params, obs))
+      except Exception:  # pylint: disable=broad-except
+        ref = -2
+      evs.append({'ev': 'apply_ret', 'out': intern(out), 'ref': ref})
       return out
 
     class RecDist:
@@ -243,15 +256,23 @@ def inference_traces(ctx, r):
     pparams = nets.policy_network.init(jax.random.PRNGKey(r.randint(0, 9999)))
     for call in range(4):
       batch = r.choice([(), (3,), (2, 2)])
-      obs = jnp.asarray(np.random.RandomState(r.randint(0, 10**6)).randn(*batch, obs_size).astype(np.float32))
-      stats = running_statistics.NestedMeanStd(
-          mean=jnp.asarray(np.random.RandomState(r.randint(0, 10**6)).randn(obs_size).astype(np.float32)),
-          std=jnp.asarray((0.5 + np.random.RandomState(r.randint(0, 10**6)).rand(obs_size)).astype(np.float32)))
+      rnd = lambda *shape: np.random.RandomState(r.randint(0, 10**6)).randn(*shape).astype(np.float32)
+      if dict_obs:
+        obs = {'state': jnp.asarray(rnd(*batch, obs_size)), 'privileged_state': jnp.asarray(rnd(*batch, priv))}
+        stats = running_statistics.NestedMeanStd(
+            mean={'state': jnp.asarray(rnd(obs_size)), 'privileged_state': jnp.asarray(rnd(priv))},
+            std={'state': jnp.asarray(0.5 + np.abs(rnd(obs_size))), 'privileged_state': jnp.asarray(0.5 + np.abs(rnd(priv)))})
+      else:
+        obs = jnp.asarray(rnd(*batch, obs_size))
+        stats = running_statistics.NestedMeanStd(mean=jnp.asarray(rnd(obs_size)), std=jnp.asarray(0.5 + np.abs(rnd(obs_size))))
       key = jax.random.PRNGKey(r.randint(0, 10**6))
       det = call % 2
+      # "deterministic" may be spelled as any truthy value (a numpy bool, the integer 1, ...)
+      det_arg = [False, True, False, np.bool_(True), False, 1][(call + 2 * t) % 6] if det else False
+      det_arg = det_arg if det_arg is not False or not det else True
       evs.append({'ev': 'call', 'obs': intern(obs), 'key': intern(key), 'det': det, 'stats': intern(stats),
                   'params': intern(pparams)})
-      action, extras = make_policy((stats, pparams), deterministic=bool(det))(obs, key)
+      action, extras = make_policy((stats, pparams), deterministic=det_arg)(obs, key)
       e = {'ev': 'return', 'action': intern(action), 'nextras': len(extras), 'log_prob': -1, 'raw_action': -1}
       if 'log_prob' in extras:
         e['log_prob'] = intern(extras['log_prob'])
@@ -262,7 +283,7 @@ def inference_traces(ctx, r):
         evs.append({'ev': 'action_out_of_range'})
     # uniform record shape for TLC
     keys = ['ev', 'obs', 'key', 'det', 'stats', 'params', 'out', 'logits', 'actions', 'x', 'action', 'nextras',
-            'log_prob', 'raw_action']
+            'log_prob', 'raw_action', 'ref']
     traces.append([{k: e.get(k, -1) for k in keys} for e in evs])
   tf = os.path.join(tlc.WORK, 'c20-flow.json')
   with open(tf, 'w') as f:
